@@ -50,7 +50,8 @@ Proof.
           (r = Ok -> is_clean st' = true /\ hd_state st' = hd_state st) /\
           (r <> Ok -> hd_state st' = hd_state st \/ (hd_state st = Some ACTIVE /\ hd_state st' = Some DEACTIVE /\ is_clean st' = true))).
   { intros H'. destruct (flush_with_core _ (fault_inner_spec ft) st gs r st' C H' Hr) as (A1 & A2 & A3 & A4 & A5 & A6 & A7 & _ & A9 & A10).
-    repeat (split; auto). }
+    split; [exact A1|]. split; [exact A2|]. split; [exact A3|]. split; [exact A4|]. split; [exact A5|]. split; [exact A6|].
+    split; [exact A7|]. split; [|exact A10]. intros X. destruct (A9 X) as [B1 [B2 _]]. auto. }
   destruct ft; try (apply Gen; exact H).
   unfold flush_fault in H. destruct (is_clean st) eqn:Ecl; inversion H; subst r st'.
   - repeat (split; auto); try (intros X; congruence).
